@@ -40,8 +40,12 @@ type ipG2 struct {
 
 func newIPG2(c *Ctx, pkg string) *ipG2 { return &ipG2{c: c, pkg: pkg} }
 
-// local: a named source function of the package (no closure, no wrapper).
+// local: a named source function of the package (no closure, no wrapper), or an instantiation of
+// a generic one (ip_j5.go).
 func (a *ipG2) local(fn *ssa.Function) bool {
+	if j5Instance(fn, a.pkg) {
+		return true
+	}
 	return fn != nil && fn.Blocks != nil && fn.Parent() == nil && fn.Synthetic == "" && pkgRel(fn) == a.pkg
 }
 
@@ -440,6 +444,12 @@ func (a *ipG2) routeOf(w ipAlt, msg ssa.Value, fws *ssa.Parameter) ipRoute {
 			}
 		case *ssa.Lookup:
 			if m, _ := ipResolve(x.X, cd.fr); !cd.Truth && strings.HasSuffix(pathOf(m), ".deferred") {
+				rt.notDeferred = true
+			}
+		case *ssa.Extract:
+			// `_, ok := set[key]` with ok false, possibly inside a membership method of a small set
+			// type: the set is the deferral set of the handler and the key is this message's MID
+			if m, key, mfr, kfr, ok := j5AbsentTest(x, cd.Truth, cd.fr); ok && mfr == nil && kfr == nil && strings.HasSuffix(pathOf(m), ".deferred") && j5KeyOfMsg(key, msg) {
 				rt.notDeferred = true
 			}
 		}
